@@ -108,6 +108,14 @@ def build_font(mspec, module, order_key=None):
 def build_designspace(fam, fonts, names=True, filenames=None):
     doc = DesignSpaceDocument()
     for a in fam["axes"]:
+        if "discrete" in a:
+            from fontTools.designspaceLib import DiscreteAxisDescriptor
+
+            ax = DiscreteAxisDescriptor()
+            ax.name, ax.tag = a["name"], a["tag"]
+            ax.values, ax.default = list(a["discrete"]), a["default"]
+            doc.addAxis(ax)
+            continue
         ax = AxisDescriptor()
         ax.name, ax.tag = a["name"], a["tag"]
         ax.minimum, ax.default, ax.maximum = a["minimum"], a["default"], a["maximum"]
@@ -168,6 +176,10 @@ def build_designspace(fam, fonts, names=True, filenames=None):
     for vf in fam.get("variable_fonts", []):
         d = VariableFontDescriptor(name=vf["name"])
         d.axisSubsets = [RangeAxisSubsetDescriptor(name=a) for a in vf["axes"]]
+        for an, av in (vf.get("values") or {}).items():
+            from fontTools.designspaceLib import ValueAxisSubsetDescriptor
+
+            d.axisSubsets.append(ValueAxisSubsetDescriptor(name=an, userValue=av))
         d.lib = _copy(vf.get("lib", {}))
         doc.addVariableFont(d)
     for k, v in fam.get("dslib", {}).items():
